@@ -173,6 +173,7 @@ def rules(ctx):
     ctx.obligations[before:] = [o for o in ctx.obligations[before:] if "/R1." in o.id]
     for o in ctx.obligations[before:]:
         o.id = o.id.replace("C16/R1.", "C16/R4.alignment.")
+    C05.successor_rules(ctx, "R4.alignment")
     # the reported cycles are the schedule's cycles, all of them (shared with C03.R2 / C05.R3)
     from . import C03
     before = len(ctx.obligations)
